@@ -357,7 +357,7 @@ def xff_elements(chk, prog, cfg, rule, fn="humphrey::http::address::Address::fro
                f"the X-Forwarded-For element is parsed as {d}: with optional whitespace after the comma (RFC 9110 list syntax) "
                f"the address is silently skipped and origin/proxies are wrong", where=c.where(blk), cfg=cfg)
         odd = sorted(set(x[1] for x in desc_calls(d) if not core.re.search(XFF_OK, x[1])))
-        direct = c.path.startswith(fn + "::{closure") or c.path == fn
+        direct = c.path.startswith(fn + "::{closure") or c.path == fn or c.path in (getattr(prog, "extra_closures", {}) or {}).get(fn, [])
         # the element: the adaptor closure's parameter, or (loop form) the item produced by iterating the split
         is_elem = direct and (desc_contains(d, lambda x: x[0] == "param") and c.kind == "closure" or
                               desc_contains(d, lambda x: x[0] == "call" and core.re.search(r"Iterator>?::next$|Iterator::next$", x[1]) is not None and
@@ -392,7 +392,7 @@ def cookies(chk, prog, cfg):
     chk.floor(f"get_cookies / get_cookie [{cfg}]", (1 if gc else 0) + (1 if g1 else 0), 2)
     if not gc or not g1:
         return
-    fam = [gc] + prog.all_closures_of(gc.path)
+    fam = shared.family(prog, gc.path)
     src = [(bb, blk, t) for bb in fam for blk, t in bb.calls_to(r"Headers::get$")]
     ok = any(any(core.is_variant(a, "HeaderType", "Cookie") for a in [describe(prog, bb, x) for x in t["args"]]) for bb, blk, t in src)
     chk.ob("R7.cookies", gc.path, "the list is read from the Cookie header field", ok, "", cfg=cfg)
